@@ -66,6 +66,11 @@ class C08(Prop):
     def summarize(self, c):
         return mc.summarize(c)
 
+    def extra_coverage(self, cases, tier):
+        if tier != "thorough":
+            return {}
+        return {"exhaustive_subspace": "all interleavings of 6 pairs of child scripts (<= 7 messages, 2 children, one REQ with limit 2): 120 histories, prepended to the random ones"}
+
     def distribution(self, cases):
         d = {"histories": len(cases), "children_2": 0, "children_3": 0, "children_4": 0, "steps": 0,
              "client_req": 0, "client_close": 0, "child_eose": 0, "merged_eose": 0, "child_event": 0,
